@@ -276,6 +276,10 @@ type Association struct {
 	myNextRSN        uint32
 	reconfigs        map[uint32]*chunkReconfig
 	reconfigRequests map[uint32]*paramOutgoingResetRequest
+	// request sequence numbers of the peer's outgoing reset requests that have
+	// already been performed, see recordPerformedResetRequest.
+	performedResetRSNs       map[uint32]struct{}
+	highestPerformedResetRSN uint32
 
 	// Non-RFC internal data
 	sourcePort              uint16
@@ -3651,6 +3655,17 @@ func (a *Association) handleReconfigParam(raw param) (*packet, error) {
 	switch par := raw.(type) {
 	case *paramOutgoingResetRequest:
 		a.log.Tracef("[%s] handleReconfigParam (OutgoingResetRequest)", a.name)
+		if _, done := a.performedResetRSNs[par.reconfigRequestSequenceNumber]; done {
+			// A retransmission of a request that was already performed (its
+			// response was lost). Performing it again would reset streams
+			// that have been re-opened since. RFC 6525 Sec 5.2.1.
+			return a.createPacket([]chunk{&chunkReconfig{
+				paramA: &paramReconfigResponse{
+					reconfigResponseSequenceNumber: par.reconfigRequestSequenceNumber,
+					result:                         reconfigResultSuccessNOP,
+				},
+			}}), nil
+		}
 		if a.peerLastTSN() < par.senderLastTSN && len(a.reconfigRequests) >= maxReconfigRequests {
 			// We have too many reconfig requests outstanding. Drop the request and let
 			// the peer retransmit. A well behaved peer should only have 1 outstanding
@@ -3737,6 +3752,7 @@ func (a *Association) resetStreamsIfAny(resetRequest *paramOutgoingResetRequest)
 			delete(a.streams, s.streamIdentifier)
 		}
 		delete(a.reconfigRequests, resetRequest.reconfigRequestSequenceNumber)
+		a.recordPerformedResetRequest(resetRequest.reconfigRequestSequenceNumber)
 	} else {
 		a.log.Debugf("[%s] resetStream(): senderLastTSN=%d > peerLastTSN=%d",
 			a.name, resetRequest.senderLastTSN, a.peerLastTSN())
@@ -3749,6 +3765,28 @@ func (a *Association) resetStreamsIfAny(resetRequest *paramOutgoingResetRequest)
 			result:                         result,
 		},
 	}})
+}
+
+// recordPerformedResetRequest remembers that the peer's outgoing reset request
+// with the given sequence number has been performed, so that a retransmission
+// of it is not performed a second time. Only the most recent requests are kept.
+// The caller should hold the lock.
+func (a *Association) recordPerformedResetRequest(rsn uint32) {
+	if a.performedResetRSNs == nil {
+		a.performedResetRSNs = map[uint32]struct{}{}
+	}
+	if len(a.performedResetRSNs) == 0 || sna32GT(rsn, a.highestPerformedResetRSN) {
+		a.highestPerformedResetRSN = rsn
+	}
+	a.performedResetRSNs[rsn] = struct{}{}
+
+	if len(a.performedResetRSNs) > 2*maxReconfigRequests {
+		for old := range a.performedResetRSNs {
+			if sna32LT(old, a.highestPerformedResetRSN-maxReconfigRequests) {
+				delete(a.performedResetRSNs, old)
+			}
+		}
+	}
 }
 
 // Move the chunk peeked with a.pendingQueue.peek() to the inflightQueue.
